@@ -83,17 +83,19 @@ func ruleErrLatch(c *Check, p *Program, rule string) {
 	}
 	ok := false
 	n := 0
-	allInstrs(fn, func(in ssa.Instruction) {
-		st, isSt := in.(*ssa.Store)
-		if !isSt || lastField(st.Addr) != "Blocks.err" {
-			return
-		}
-		n++
-		for _, a := range atomsOfBlock(in.Block()) {
-			if a.Kind == "errnil" && a.Val && loadField(a.V) == "Blocks.err" {
-				ok = true
+	for _, f := range withAnon(fn) {
+		allInstrs(f, func(in ssa.Instruction) {
+			st, isSt := in.(*ssa.Store)
+			if !isSt || lastField(st.Addr) != "Blocks.err" {
+				return
 			}
-		}
-	})
+			n++
+			for _, a := range atomsOfBlock(in.Block()) {
+				if a.Kind == "errnil" && a.Val && loadField(a.V) == "Blocks.err" {
+					ok = true
+				}
+			}
+		})
+	}
 	c.Cond(ok && n == 1, rule, "Blocks.closeR#first-error-wins", p.Pos(fn.Pos()), "the concurrent error latch is written only while it is still nil", "single store guarded by b.err == nil", "the latch store is not guarded by b.err == nil (a later error or io.EOF could replace the first error)")
 }
